@@ -89,4 +89,38 @@ PROPS = {
         "rule": "One evaluation = one solver driven through a random decide/pop history (30-150 steps; long regime 300-600) over a generated CNF with <= 10 variables (clause widths 1-5, duplicate literals, tautological clauses, occasionally an empty clause or the empty formula). After construction and after every decide the observable state (model through the read-only hook, is_set, difference_iter, is_sat, cur_hash) is checked: (1) every assigned value is entailed -- brute force over all models of CNF and decisions; (2) UNSAT / None only if no model extends the decisions, and a refused decision leaves the state unchanged; (3) no clause falsified or with exactly one unassigned literal and no true literal, and the model contains the closure computed by an independent naive propagator; (4) the state observed after pop equals field by field the state recorded before the matching decide (pops unwind 1..k levels); (5) is_sat iff every non-tautological clause has a true literal; (6) per solver a map hash -> residual formula: a second, different residual under the same hash is a violation (asserted only while the product of all occurrence primes is < 2^128). Decisions re-decide assigned variables and decide against implied values. Non-trivial = at least one decision propagated a further literal; distinct = distinct (CNF) inputs.",
         "assumptions": ASSUME_COMMON + ["S6: decide() returning UNSAT pushes nothing, so the harness pops only after SAT/Unknown and never pops the two base states"],
     },
+    "C07": {
+        "profiles": {"quick": ["mon"], "thorough": ["mon", "monrel"]},
+        "scale": {"quick": 1, "thorough": 40},
+        "floors": {
+            "quick": {"counts_real": 4000, "counts_finite_field": 12000, "counts_boolean": 4000, "counts_expected_utility": 4000,
+                      "counts_complex": 4000, "counts_rational": 4000, "counts_polynomial": 4000, "evaluate_calls": 50000},
+            "thorough": {"counts_real": 150000},
+        },
+        "rule": "One evaluation = one unsmoothed_wmc call on a diagram compared for exact equality with the oracle: for weights with low+high = one (all 9 shipped semiring instances: real, finite field over U32_TINY / U32_SMALL / U64_LARGEST, Boolean, expected utility, complex, rational, polynomial) the sum over ALL models of the product of literal weights, computed from the truth table in exact arithmetic (dyadic rationals, overflow-free modular arithmetic, naturals, coefficient vectors mod x^32); for BDDs additionally arbitrary non-normalised weights against the unsmoothed count U (sum over the variables each sub-function depends on, S2). Both the diagram and its negation are counted. Diagrams: BDDs under random orders, SDDs under random vtrees (compression on/off), top-down decision-DNNFs of random CNFs; functions are parities, ite(x,g,!g) (both polarities of one node under one parent), thresholds and random functions on <= 7 variables. evaluate() is compared with the truth table on every assignment. Float-backed weights are dyadic and bounded so that every intermediate value is exactly representable (otherwise the case is skipped and counted). Non-trivial = function neither constant nor literal; distinct = distinct (diagram, weights, sub-check) triples.",
+        "assumptions": ASSUME_COMMON,
+    },
+    "C08": {
+        "profiles": {"quick": ["mon"], "thorough": ["mon", "monrel"]},
+        "scale": {"quick": 1, "thorough": 40},
+        "floors": {
+            "quick": {"smooth_calls": 5000, "inputs_skipping_levels": 2000, "complemented_roots": 1500, "counts_real": 4000,
+                      "counts_finite_field": 4000, "model_counts": 4000, "exh3_orders": 6},
+            "thorough": {"smooth_calls": 100000},
+        },
+        "rule": "One evaluation = one smooth(f, k) call (f and its negation) checked four ways: the result's truth table (structural walk) equals f's; every root-to-terminal path tests var_at_level(0..k-1) exactly once and in order (structural path walk); unsmoothed_wmc under random NON-normalised small-integer weights in the real semiring and random residues in the 64-bit field equals the brute-force weighted sum over models computed from the truth table; under unit weights it equals the number of models. Regime exh3 enumerates all 256 functions of 3 variables under all 6 orders; rand draws functions on <= 8 variables (parity, ite(x,g,!g), threshold, random), forces them to skip levels at the top, in the middle and at the bottom, and also smooths over only the first k < n levels with f independent of the later ones (S9). Non-trivial = the function is not a constant/literal or it skips at least one level; distinct = distinct (function, order, k).",
+        "exhaustive_note": "all Boolean functions of 3 variables x all 6 orders x {f, not f} are enumerated; larger inputs are sampled",
+        "assumptions": ASSUME_COMMON + ["S9: smooth(f,k) is only called with f over the first k levels of the order"],
+    },
+    "C13": {
+        "profiles": {"quick": ["mon", "monrel"], "thorough": ["mon", "monrel"]},
+        "scale": {"quick": 1, "thorough": 30},
+        "floors": {
+            "quick": {"triples": 100000, "pairs": 10000, "lattice_pairs": 500, "field_sub_pairs": 2000, "domains_exhaustive": 1},
+            "thorough": {"triples": 500000},
+        },
+        "rule": "One evaluation = one triple (a,b,c) of elements of one shipped weight type on which the laws are asserted with the type's own == : + associative/commutative, * associative/commutative, identities, annihilating zero, left/right distributivity; a+b and a*b are additionally compared with independent reference arithmetic (overflow-free double-and-add modular arithmetic, exact dyadic rationals, naturals, coefficient vectors mod x^32). Declared rings (real, expected utility, finite fields): (a+b)-b == a, and finite-field a-b == (a-b) mod P. Lattices (real, expected utility): join/meet idempotent, commutative, associative; whenever partial_cmp relates two elements join and choose return the larger and meet the smaller; the declared EU order is compared with the componentwise definition. Domains: Boolean exhaustive; real 9 dyadic values incl. negatives (all 729 triples); complex and expected utility 5x5 grids (all 15625 triples each); rationals 0..12 (all 2197 triples); polynomials of lengths {0,1,2,16,31,32,random} with small integer coefficients (random); finite fields for ALL SEVEN exported primes over {0,1,2,P/2-1,P/2,P/2+1,P-2,P-1,2^32,2^64-1,2^64+1 mod P, 3 random} (all 2744 triples per prime). Run in both build profiles (overflow checks on: a panic is a violation; off: a wrong value is). Every triple is non-trivial and distinct by construction; distinct = distinct (type, a, b, c).",
+        "exhaustive_note": "Boolean: complete. Real/complex/expected-utility/rational: all triples over the stated finite grids. Finite fields: all triples over the stated boundary sets for each of the seven exported primes. Polynomials: sampled.",
+        "assumptions": ASSUME_COMMON + ["S10: FiniteField::negate is 1-v (hash complement) and is not tested as an additive inverse", "S11: rational values are naturals reachable from one/zero"],
+    },
 }
